@@ -374,7 +374,12 @@ func range_(tokens []Token) ([2]int, error) {
 			switch token := token.(type) {
 			case pa.Ident:
 				if utils.AsciiLower(token.Value) == "infinite" {
-					values[i] = math.MaxInt32
+					// negative infinity as a lower bound, positive infinity as an upper bound
+					if i == 0 {
+						values[i] = math.MinInt32
+					} else {
+						values[i] = math.MaxInt32
+					}
 					continue
 				}
 			case pa.Number:
